@@ -153,4 +153,18 @@ func init() {
 		Assumptions: []string{"K-LPM (C12)", "K-DOM (C11): domain-set hits are free booleans", "logger is a no-op"},
 		QuickBudget: 8 * time.Minute, ThoroughBudget: 90 * time.Minute,
 	}
+	checks["C07"] = &CheckDef{
+		Pkgs:    []string{"./component/dns", "./control"},
+		Harness: []string{"component/dns:Verif_C07_request", "component/dns:Verif_C07_response", "control:Verif_C07_reject_ignores_cache", "control:Verif_C07_reask_bound"},
+		MaxIter: 600,
+		Level:   "other",
+		LevelText: "DNS request and response rule programs of symbolic shape are lowered by the real RulesBuilder.Apply into the real Request/ResponseMatcherBuilder.add* methods with symbolic typed values (query types, answer prefixes, upstream ids), built by the real Build and matched by the real RequestMatcher.Match / ResponseMatcher.Match on a symbolic question (type, answering upstream, 0-2 answer addresses); the solver shows the selected upstream / verdict equal to a first-match evaluator for every question. The real DnsController.HandleWithResponseWriter_ is run with a live cache entry and a request routed to reject (empty answer, cache family dropped, no upstream contacted), and the real dialSend recursion is run against an adversarial ResponseSelect (any verdict at every step): at most MaxDnsLookupDepth upstream queries, failure only by the depth limit.",
+		LevelNote: "Trusted: go/ssa, executor, z3, the evaluator in the harness. Contracts K-LPM / K-DOM as in C01 (qname sets are free booleans; the answer-address trie is CIDR containment). Forwarders, the dialer chooser and wire packing are stubs; Dns.RequestSelect/ResponseSelect are replaced in the controller harnesses (their own index checks are not covered).",
+		Technique: techniqueText,
+		Explanation: "Bounded symbolic execution of DNS rule compilation/matching and of the controller's reject and re-ask flows.",
+		Bounds:  map[string]string{"quick": "request: {qname|qtype}(<=2 values) && {qname|qtype} then {qname|qtype}(<=2), 2 of 4 upstream targets per rule; response: {ip|upstream|qtype}(<=2) && qname then {ip|upstream}, verdicts accept/reject/upstream; question: symbolic qtype and answering upstream, answers none | one v4 | v6+v4 with symbolic bytes; re-ask chains: every verdict sequence up to the depth limit", "thorough": "all kinds in all three positions, all verdict combinations, any family per answer"},
+		Outside: []string{"network forwarders, TCP fallback", "Dns.RequestSelect/ResponseSelect index range checks", "SplitRequestRules"},
+		Assumptions: []string{"K-LPM (C12)", "K-DOM (C11)", "forwardWithFallback returns an arbitrary well-formed answer"},
+		QuickBudget: 8 * time.Minute, ThoroughBudget: 60 * time.Minute,
+	}
 }
